@@ -80,7 +80,7 @@ func CheckC18(tier string, seed uint64, rep *core.Reporter) (*core.Evidence, err
 			return nil, err
 		}
 	}
-	free, err := w.RunShards(w.RunsimRace, "c18", seed^0x5eed, freeRuns, 4, []string{"-free"},
+	free, err := w.RunShards(w.RunsimRace, "c18", seed^0x5eed, freeRuns, 8, []string{"-free"},
 		[]string{"GORACE=halt_on_error=0 exitcode=0", "GOMAXPROCS=16"}, 60*time.Minute)
 	if err != nil {
 		return nil, err
@@ -120,6 +120,7 @@ func CheckC18(tier string, seed uint64, rep *core.Reporter) (*core.Evidence, err
 			"policies":                 statsSubset(ctl.Stats, "policy:"),
 			"task_kinds":               statsSubset(ctl.Stats, "taskkind:"),
 			"runs_same_grammar":        ctl.Stats["runs_same_grammar"],
+			"runs_concurrent_phase_first": ctl.Stats["runs_concurrent_phase_first"],
 			"runs_mixed_grammars":      ctl.Stats["runs_mixed_grammars"],
 			"package_level_vars_watched": nglobals,
 			"package_level_var_names":  names,
